@@ -474,6 +474,10 @@ func RunSvc(sim *sched.Sim, c *SvcCase, raceMode bool, setup func(e *Engine)) *S
 		}
 		idleTime = 0
 		sim.Perform(sim.Pick(acts))
+		if iter == 19999 {
+			// no run needs this many decisions: something polls forever
+			run.Hang = "step-cap; the run was still taking scheduling decisions after 20000 steps"
+		}
 	}
 	for _, t := range sim.Parked() {
 		run.Final += " [" + t.Name + "/" + t.Role + " @" + t.Point + "(" + t.Arg + ")]"
@@ -711,7 +715,7 @@ func (r *SvcRun) CheckLifecycle() {
 	h := r.H
 	if r.Hang != "" {
 		cls := "shutdown-hang"
-		h.Violate("C03", cls, strings.SplitN(r.Hang, ";", 2)[0], r.Hang)
+		h.Violate("C03", cls, strings.SplitN(r.Hang, ";", 2)[0], r.Hang+"; parked at the end:"+r.Final)
 	}
 	for _, p := range e.Sim.Panics {
 		h.Violate("C03", "panic", panicSignature(p), p)
